@@ -48,6 +48,29 @@ def setup_env():
         changed = True
     if changed:
         os.environ["PYTHONPATH"] = os.pathsep.join(parts)
+    pin_hypothesis()
+
+
+def pin_hypothesis():
+    """Make Hypothesis' generation a pure function of (strategy, seed).
+
+    Hypothesis >= 6.13x mixes numeric/string constants harvested from every *local* module in
+    sys.modules (here: /verif/vf and /repo/hypnotoad) into what it generates. The pool grows as
+    modules get imported, so the cases drawn would depend on the import history of the process and
+    on the text of the code under test. The harness switches that pool off (idempotent)."""
+    try:
+        from hypothesis.internal.conjecture import providers
+    except Exception:  # noqa: BLE001 - older/newer layouts: nothing to pin
+        return
+    if getattr(providers, "_vf_pinned", False):
+        return
+    try:
+        empty = providers.Constants()
+        providers._get_local_constants = lambda: empty
+        providers.CONSTANTS_CACHE.cache.clear()
+        providers._vf_pinned = True
+    except Exception:  # noqa: BLE001
+        pass
 
 
 def seed_from_env():
